@@ -1,5 +1,6 @@
 """Profile `rest` (C16): the REST control surface is authenticated, state-gated, and sends are
 faithful.  Routes are enumerated from the real Flask url_map at run time."""
+import re
 import socket
 import struct
 
@@ -10,7 +11,8 @@ from sim.profiles.base import URL, PEER
 from sim.profiles.fsm import FsmCtx, FsmProfile, swarm_config, PHASES
 
 METHODS = ["GET", "POST", "HEAD", "PUT", "DELETE", "PATCH", "OPTIONS"]
-CREDS = ["none", "baduser", "badpass", "empty", "unknown_nopw", "known_nopw", "case", "ok"]
+CREDS = ["none", "baduser", "badpass", "empty", "unknown_nopw", "known_nopw", "case", "user_prefix", "user_infix", "shifted",
+         "user_is_both", "ok"]
 SEND_ROUTES = ("send/update", "send/route-refresh", "send/bin_update")
 GATED_ROUTES = SEND_ROUTES + ("adj-rib-in", "adj-rib-out", "json_to_bin")
 WELL_KNOWN = {"NO_EXPORT": 0xFFFFFF01, "NO_ADVERTISE": 0xFFFFFF02}
@@ -219,6 +221,8 @@ class RestCtx(FsmCtx):
             cred = rng.pick(CREDS)
         path = "/v1/peer/%s/%s" % (rng.pick([PEER, PEER, "1.2.3.4"]), suffix)
         path = path.replace("<action>", rng.pick(["send", "received", "x"]))
+        # (any further placeholder of a rule in the URL map gets a plausible value)
+        path = re.sub(r"<[^>/]+>", lambda m: rng.pick(["send", "received", "1", "x"]), path)
         body = None
         query = None
         if method in ("POST", "PUT", "PATCH"):
@@ -250,6 +254,19 @@ class RestCtx(FsmCtx):
             return {"binary_data": msg.hex()}
         if suffix in ("adj-rib-in", "adj-rib-out"):
             return {"data": [rng.pick(base.PREFIX_POOL)]}
+        if suffix == "send/update" and rng.chance(0.03):
+            # a maximum-size announcement: 4096 octets on the wire (or just below / refused just above)
+            ibgp = cfg["local_as"] == cfg["remote_as"]
+            as4 = bool(getattr(self.world.factory.fsm.protocol, "fourbytesas", False))
+            attrs_len = 4 + (3 + 2 + (4 if as4 else 2)) + 7 + (7 if ibgp else 0)
+            room = rng.pick([4096, 4096, 4095, 4090]) - 23 - attrs_len
+            n, r = divmod(room, 4)
+            nlri = ["10.%d.%d.0/24" % (i // 256, i % 256) for i in range(n)] + {0: [], 1: ["0.0.0.0/0"], 2: ["11.0.0.0/8"], 3: ["11.1.0.0/16"]}[r]
+            self.stats["gen:maximum_size_announcement"] += 1
+            attr = {"1": 0, "2": [[2, [100]]], "3": "10.0.0.1"}
+            if ibgp:
+                attr["5"] = 100
+            return {"attr": attr, "nlri": nlri}
         # send/update, json_to_bin (and anything else): an UPDATE dictionary
         prev = getattr(self, "gen_prev_bodies", None)
         if prev is None:
@@ -391,7 +408,8 @@ class RestCtx(FsmCtx):
         suffix = path.split("/", 4)[4] if path.count("/") >= 4 else path
         rule = None
         for s, methods in rules():
-            if s == suffix or (s.startswith("version/") and suffix.startswith("version/")):
+            pat = "^" + re.sub(r"<[^>]+>", "[^/]+", re.sub(r"([.+*?()\[\]])", r"\\\1", s)) + "$"
+            if s == suffix or re.match(pat, suffix):
                 rule = (s, methods)
         state = self.snap[0]
         self.stats["rest:%s:%s" % (method if method in ("GET", "POST") else "other", cred)] += 1
@@ -469,12 +487,13 @@ class RestCtx(FsmCtx):
             # the code point must be one the peer of THIS session advertised (2 -> type 5, 128 -> type 128)
             allowed = set()
             try:
-                po = [f for f in rp.deframe(c.delivered)[0] if f.type == rp.OPEN and not f.error][0]
-                codes = [code for code, _ in rp.decode_open(po.body).caps]
-                if 2 in codes:
-                    allowed.add(rp.ROUTE_REFRESH)
-                if 128 in codes:
-                    allowed.add(rp.CISCO_ROUTE_REFRESH)
+                # (a peer that repeats its OPEN with other capabilities: either set may be the one in force)
+                for po in [f for f in rp.deframe(c.delivered)[0] if f.type == rp.OPEN and not f.error]:
+                    codes = [code for code, _ in rp.decode_open(po.body).caps]
+                    if 2 in codes:
+                        allowed.add(rp.ROUTE_REFRESH)
+                    if 128 in codes:
+                        allowed.add(rp.CISCO_ROUTE_REFRESH)
             except (IndexError, ValueError):
                 pass
             if not allowed:
@@ -637,6 +656,11 @@ class RestProfile(FsmProfile):
         cfg["max_ops"] = rng.pick([30, 50, 80])
         cfg["rib"] = rng.chance(0.3)
         cfg["two_sessions"] = rng.chance(0.12)
+        if rng.chance(0.15):
+            # the stock DefaultHandler is the application (it must not alter what the session layer keeps)
+            cfg["handler"] = "default"
+            cfg["write_disk"] = rng.chance(0.7)
+            cfg["rotate_bytes"] = rng.pick([2000, 10 ** 9])
         if rng.chance(0.3):
             cfg["username"], cfg["password"] = rng.pick([("admin", "s3cret"), ("op", "admin"), ("root", ""), ("", "")])
         # bias towards established sessions: steer
